@@ -2,6 +2,11 @@
    for bool, option, unit, prod, list, sumbool, sumor; N, Z, positive, nat stay extracted datatypes.
    No Extract Constant. *)
 From Coq Require Extraction ExtrOcamlBasic.
-From XetModel Require Import Model.Chunker.
+From XetModel Require Import Gen.HashConsts Model.Chunker Model.Blake3 Model.Merkle.
 Extraction Language OCaml.
-Extraction "model.ml" Chunker.chunker_new Chunker.run_calls Chunker.spec_chunks Chunker.st0.
+Extraction "model.ml"
+  Chunker.chunker_new Chunker.run_calls Chunker.spec_chunks Chunker.st0
+  Blake3.keyed_hash
+  Merkle.compute_data_hash Merkle.compute_internal_node_hash Merkle.hmac Merkle.range_hash_from_chunks
+  Merkle.cas_node_hash Merkle.validator_root Merkle.file_node_hash Merkle.hex Merkle.base64 Merkle.from_hex Merkle.from_base64
+  Merkle.hashed_write HashConsts.hashed_write_hashes_whole_buffer.
